@@ -50,7 +50,7 @@ theorem run_doNames {F : Forest} {recurse : List Char → St → Except CErr (St
 
 theorem catlog_doNames {F : Forest} {optU optR : Bool} {fuel : Nat} {t : List Char} {st st' : St} {n : Nat}
     {ls : List (List Char)} (h : catlog F optU optR fuel t st = .ok (st', n)) (ht : normpath t ∉ st.already)
-    (hl : lookup F (normpath t) = some (some ls)) : DoNames t ls (newOut st st') := by
+    (hl : lookup F (normpath t) = some (some ls)) : DoNames t (unglue ls) (newOut st st') := by
   obtain ⟨f, hf, hrun⟩ := catlog_run h ht hl
   obtain ⟨c, hc, hd⟩ := run_doNames (catlog_good F optU optR f) (List.mem_cons_self ..) hrun
   have hc' : st'.out = c.reverse ++ st.out := hc
@@ -62,7 +62,7 @@ theorem catlog_reads {F : Forest} {optU optR : Bool} {fuel : Nat} {x : List Char
     (h : catlog F optU optR fuel x s = .ok (s', k)) (hx : normpath x ∉ s.already) :
     ∃ v, lookup F (normpath x) = some v ∧
       (v = none → s' = { s with already := normpath x :: s.already }) ∧
-      ∀ ls, v = some ls → rawsOf x (newOut s s') = rawLines ls := by
+      ∀ ls, v = some ls → rawsOf x (newOut s s') = rawLines (unglue ls) := by
   generalize hl : lookup F (normpath x) = r
   cases r with
   | none =>
